@@ -599,12 +599,296 @@ def rule_xof_semantic(fx, rep):
     rep.floor('BYTES', 'xof-scenarios', n, 6)
 
 
+def rule_h2f_semantic(fx, rep):
+    """hash_to_field::<T, X>(msg, dst, count), interpreted for several (Length, count): one expand_message(msg, dst, count * Length)
+    and element k = from_ro(bytes[k*Length .. (k+1)*Length]) -- whether written as a loop with push, map/collect or chunks."""
+    import stdmodel
+    from exp import Agg, Int, Ref, TOP
+    if fx.body(H2F) is None:
+        rep.fail('WIRE', 'hash_to_field:anchor', 'hash_to_field not found')
+        return
+    rep.fn(H2F)
+    where = fx.fn(H2F)['span']
+    bad = []
+    n = 0
+    for L, count in ((64, 0), (64, 1), (64, 2), (128, 2), (48, 3), (48, 1)):
+        calls = []
+
+        def val(fr, op):
+            v = fr.deref_operand(op)
+            for _ in range(6):
+                if isinstance(v, Ref):
+                    v = fr._project(fr.store.get(v.root, TOP), v.proj)
+            return v
+
+        def tr(I, fr, t, c, pth):
+            nm = c.get('name')
+            targs = ' '.join(c.get('targs') or [])
+            if nm == 'to_usize' and 'FromRO>::Length' in targs:
+                fr.storev(t['dest'], Int(L))
+                return True
+            if nm == 'expand_message' and c.get('trait') == 'hash_to_field::ExpandMsg' and len(t['args']) == 3:
+                n_ = fr.operand(t['args'][2])
+                calls.append((val(fr, t['args'][0]), val(fr, t['args'][1]), n_.v if isinstance(n_, Int) else None, tuple(c.get('targs') or [])))
+                if isinstance(n_, Int) and n_.v <= 4096:
+                    fr.storev(t['dest'], Agg([('ob', j) for j in range(n_.v)], ('vec', 'Vec')))
+                    return True
+                return False
+            if nm == 'from_slice' and 'GenericArray' in (c.get('res') or c['def']):
+                s_ = stdmodel.seq_of(I, fr, t['args'][0])
+                if isinstance(s_, Agg):
+                    pth.events.append(('from_slice', len(s_.items), 'Length' in targs))
+                    if len(s_.items) != L:
+                        return 'panic'          # from_slice asserts the length
+                    fr.storev(t['dest'], Agg(list(s_.items), ('garr', 'okm')))
+                    return True
+                return False
+            if nm == 'from_ro' and c.get('trait') == 'hash_to_field::FromRO':
+                s_ = stdmodel.seq_of(I, fr, t['args'][0])
+                if isinstance(s_, Agg):
+                    fr.storev(t['dest'], ('elem', tuple(s_.items), tuple(c.get('targs') or [])))
+                    return True
+                return False
+            return False
+        I = exp.Interp(fx, 'none', extra_transfer=tr)
+        import inline as INL
+        I.inline = lambda q: INL.is_private_helper(fx, q)
+        I.fork_inlined = True
+        try:
+            res = I.run(H2F, [Ref('MSG', []), Ref('DST', []), Int(count)], extra={'MSG': 'MSG', 'DST': 'DST'})
+        except (exp.NotDerivable, exp.Budget) as e:
+            bad.append('Length %d, count %d: not derivable: %s' % (L, count, e))
+            continue
+        rep.sites(I.call_sites)
+        n += 1
+        div = [r for r in res if isinstance(r[1], tuple) and r[1] and r[1][0] == 'diverges']
+        res = [r for r in res if r not in div]
+        if div or len(res) != 1:
+            bad.append('Length %d, count %d: %d returning paths, %d panicking' % (L, count, len(res), len(div)))
+            continue
+        ret = res[0][1]
+        want = [tuple(('ob', k * L + j) for j in range(L)) for k in range(count)]
+        got = [x[1] if isinstance(x, tuple) and x and x[0] == 'elem' else x for x in (ret.items if isinstance(ret, Agg) else [ret])]
+        if not (isinstance(ret, Agg) and got == want):
+            bad.append('Length %d, count %d: elements are built from %s' % (L, count, [(_span(g_) if isinstance(g_, tuple) else g_) for g_ in got][:4]))
+        if not (len(calls) == 1 and calls[0][0] == 'MSG' and calls[0][1] == 'DST' and calls[0][2] == count * L):
+            bad.append('Length %d, count %d: expand_message is called as %r, expected once with (msg, dst, %d)' % (L, count, [c_[:3] for c_ in calls], count * L))
+        elif calls[0][3][:1] != ('X',):
+            bad.append('expand_message is called on %r, not on the expander type parameter' % (calls[0][3],))
+        tys = set(x[2][:1] for x in (ret.items if isinstance(ret, Agg) else []) if isinstance(x, tuple) and x and x[0] == 'elem')
+        if tys - {('T',)}:
+            bad.append('from_ro is called on %s, not on the element type parameter' % sorted(tys))
+    rep.check(not bad and n == 6, 'WIRE', 'hash_to_field', 'one expand_message(msg, dst, count * Length); element k = from_ro(output[k*Length .. (k+1)*Length]) for 6 (Length, count) scenarios',
+              '; '.join(bad[:3]), where, construct=H2F)
+
+
+def _span(t_):
+    idx = [x[1] for x in t_ if isinstance(x, tuple) and len(x) == 2 and x[0] == 'ob']
+    return 'output[%d..%d]' % (idx[0], idx[-1] + 1) if idx and idx == list(range(idx[0], idx[0] + len(idx))) else 'non-contiguous bytes'
+
+
+def rule_from_okm_semantic(fx, rep):
+    """from_okm (Fq: 64 bytes, Fr: 48 bytes) interpreted over symbolic bytes: the result is fe(0.. || hi) * C + fe(0.. || lo) with
+    hi || lo = okm in order, each half short enough to be below the modulus (so the unwraps cannot fail) and C = 2^(8 |lo|) mod p
+    (value compared).  FromRO for Fq2 = (from_okm(okm[..64]), from_okm(okm[64..]))."""
+    import stdmodel
+    from exp import Agg, Int, Ref, TOP, Opt, Either, ConstField
+    for ty, width, L, modulus in ((C.FQ, 48, 64, M.Q), (C.FR, 32, 48, M.R_ORDER)):
+        short = ty.rsplit('::', 1)[1]
+        path = fx.impl_method('hash_to_field::BaseFromRO', ty, 'from_okm')
+        if not path or fx.body(path) is None:
+            rep.fail('BYTES', '%s:from_okm:anchor' % short, 'not found')
+            continue
+        rep.fn(path)
+        where = fx.fn(path)['span']
+        pty = fx.body(path).local_ty(1)
+        rep.check(typenum(pty) == L, 'BYTES', '%s:from_okm:length' % short, 'consumes %d bytes' % L, 'parameter type %s' % pty, where)
+
+        def bytes_of(I, fr, op):
+            v = fr.operand(op)
+            for _ in range(6):
+                if isinstance(v, Ref):
+                    v = fr._project(fr.store.get(v.root, TOP), v.proj)
+            if v is TOP:
+                v = fr.deref_operand(op)
+                for _ in range(6):
+                    if isinstance(v, Ref):
+                        v = fr._project(fr.store.get(v.root, TOP), v.proj)
+            if isinstance(v, tuple) and v and v[0] == 'cursor':
+                return list(v[1])
+            if isinstance(v, Agg):
+                return list(v.items)
+            return None
+
+        def tr(I, fr, t, c, pth):
+            nm = c.get('name')
+            d = c['def']
+            r_ = c.get('res') or d
+            a = t['args']
+            if nm in ('deref', 'as_ref', 'as_slice', 'borrow') and 'GenericArray' in r_ and len(a) == 1:
+                rp = stdmodel.ref_of(fr, a[0])
+                fr.storev(t['dest'], Ref(rp[0], rp[1]) if rp is not None else fr.operand(a[0]))
+                return True
+            if r_.startswith('std::io::Cursor::<T>::new') and len(a) == 1:
+                b_ = bytes_of(I, fr, a[0])
+                if b_ is None:
+                    return False
+                fr.storev(t['dest'], ('cursor', tuple(b_)))
+                return True
+            if nm == 'chain' and c.get('trait') == 'std::io::Read' and len(a) == 2:
+                x, y = bytes_of(I, fr, a[0]), bytes_of(I, fr, a[1])
+                if x is None or y is None:
+                    return False
+                fr.storev(t['dest'], ('cursor', tuple(x) + tuple(y)))
+                return True
+            if nm == 'read_be' and c.get('trait') == 'ff::PrimeFieldRepr' and len(a) == 2:
+                v = fr.operand(a[1])
+                data = None
+                if isinstance(v, tuple) and v and v[0] == 'cursor':
+                    data = list(v[1])
+                else:
+                    # &[u8] (or &mut &[u8]) as a reader
+                    import decode2
+                    data = decode2.DecoderRun2.take_from_reader(None, I, fr, a[1], width) if isinstance(fr.deref_operand(a[1]), (Ref, Agg)) or isinstance(v, Ref) else None
+                    if data is None:
+                        b_ = bytes_of(I, fr, a[1])
+                        data = b_
+                if data is None:
+                    return False
+                pth.events.append(('read_be', len(data)))
+                if len(data) < width:
+                    fr.storev(t['dest'], Opt('some', ('short-read',), ('read_be',)))
+                    return True
+                fr.store_through(a[0], ('be', tuple(data[:width])))
+                fr.storev(t['dest'], Opt('none', Agg([]), ('read_be',)))
+                return True
+            if nm == 'from_repr' and c.get('trait') == 'ff::PrimeField' and len(a) == 1:
+                v = fr.operand(a[0])
+                if isinstance(v, tuple) and v and v[0] == 'be':
+                    z = 0
+                    for b_ in v[1]:
+                        if isinstance(b_, Int) and b_.v == 0:
+                            z += 1
+                        else:
+                            break
+                    in_range = (1 << (8 * (width - z))) <= modulus
+                    pth.events.append(('from_repr', width - z, in_range))
+                    fe = ('fe', v[1])
+                    fr.storev(t['dest'], Opt('none', fe, ('from_repr',)) if in_range else Opt(None, Either(fe, ('range-error',)), ('from_repr',)))
+                    return True
+                return False
+            if c.get('trait') == 'ff::Field' and nm in ('mul_assign', 'add_assign') and len(a) == 2:
+                x = fr.deref_operand(a[0])
+                y = fr.deref_operand(a[1])
+                for _ in range(4):
+                    if isinstance(y, Ref):
+                        y = fr._project(fr.store.get(y.root, TOP), y.proj)
+                if isinstance(y, ConstField):
+                    y = ('const', (C.dec_fr_any if ty == C.FR else C.dec_fq_any)(y.v))
+                fr.store_through(a[0], ('mul' if nm == 'mul_assign' else 'add', x, y))
+                return True
+            return stdmodel.result_transfer(I, fr, t, c, pth)
+        okm = Agg([('o', j) for j in range(L)], ('garr', 'okm'))
+        I = exp.Interp(fx, 'none', extra_transfer=tr)
+        import inline as INL
+        I.inline = lambda q: INL.is_private_helper(fx, q)
+        I.fork_inlined = True
+        bad = []
+        try:
+            res = I.run(path, [Ref('OKM', [])], extra={'OKM': okm})
+        except (exp.NotDerivable, exp.Budget) as e:
+            res = []
+            bad.append('not derivable: %s' % e)
+        rep.sites(I.call_sites)
+        div = [r for r in res if isinstance(r[1], tuple) and r[1] and r[1][0] == 'diverges']
+        oks = [r for r in res if r not in div]
+        if div:
+            bad.append('%d panicking path(s): an unwrap / read can fail for some input' % len(div))
+        if len(oks) != 1 and not bad:
+            bad.append('%d returning paths' % len(oks))
+        for pth, ret, _ in oks[:1]:
+            def norm_add(v):
+                if isinstance(v, tuple) and v and v[0] == 'add':
+                    return v[1], v[2]
+                return None
+            ad = norm_add(ret)
+            okv = False
+            why = 'returns %s' % (_short(ret),)
+            if ad:
+                for hi_t, lo_t in (ad, (ad[1], ad[0])):
+                    if isinstance(hi_t, tuple) and hi_t and hi_t[0] == 'mul' and isinstance(hi_t[1], tuple) and hi_t[1][0] == 'fe' and isinstance(hi_t[2], tuple) and hi_t[2][0] == 'const' \
+                            and isinstance(lo_t, tuple) and lo_t and lo_t[0] == 'fe':
+                        hb, lb = list(hi_t[1][1]), list(lo_t[1])
+
+                        def split(bs):
+                            z = 0
+                            while z < len(bs) and isinstance(bs[z], Int) and bs[z].v == 0:
+                                z += 1
+                            return z, bs[z:]
+                        zh, hbytes = split(hb)
+                        zl, lbytes = split(lb)
+                        if hbytes + lbytes != [('o', j) for j in range(L)]:
+                            why = 'the two halves are not okm[..h] and okm[h..] in order (most significant half must be the one that is scaled)'
+                            continue
+                        cval = hi_t[2][1]
+                        want_c = pow(2, 8 * len(lbytes), modulus)
+                        cint = cval.v if hasattr(cval, 'v') else cval
+                        if cint != want_c:
+                            why = 'the high half is scaled by %#x, expected 2^%d mod p' % (cint if isinstance(cint, int) else 0, 8 * len(lbytes))
+                            continue
+                        okv = True
+            if not okv:
+                bad.append(why)
+        rep.check(not bad, 'BYTES', '%s:from_okm' % short, 'OS2IP(okm) mod p as fe(hi) * 2^(8|lo|) + fe(lo) with both halves below the modulus; no failing unwrap', '; '.join(bad[:3]), where, construct=path)
+    # Fq2
+    p2 = fx.impl_method('hash_to_field::FromRO', C.FQ2 if hasattr(C, 'FQ2') else 'bls12_381::fq2::Fq2', 'from_ro')
+    if p2 and fx.body(p2) is not None:
+        rep.fn(p2)
+
+        def tr2(I, fr, t, c, pth):
+            nm = c.get('name')
+            if nm in ('deref', 'as_ref', 'as_slice', 'borrow') and 'GenericArray' in (c.get('res') or c['def']) and len(t['args']) == 1:
+                rp = stdmodel.ref_of(fr, t['args'][0])
+                fr.storev(t['dest'], Ref(rp[0], rp[1]) if rp is not None else fr.operand(t['args'][0]))
+                return True
+            if nm == 'from_slice' and 'GenericArray' in (c.get('res') or c['def']):
+                s_ = stdmodel.seq_of(I, fr, t['args'][0])
+                if isinstance(s_, Agg):
+                    fr.storev(t['dest'], Agg(list(s_.items), ('garr', 'okm')))
+                    return True
+            if nm == 'from_okm' and c.get('trait') == 'hash_to_field::BaseFromRO':
+                s_ = stdmodel.seq_of(I, fr, t['args'][0])
+                if isinstance(s_, Agg):
+                    fr.storev(t['dest'], ('okm', tuple(s_.items), c.get('self_ty')))
+                    return True
+            return False
+        I = exp.Interp(fx, 'none', extra_transfer=tr2)
+        bad = []
+        try:
+            res = I.run(p2, [Ref('OKM', [])], extra={'OKM': Agg([('o', j) for j in range(128)], ('garr', 'okm'))})
+            res = [r for r in res if not (isinstance(r[1], tuple) and r[1] and r[1][0] == 'diverges')]
+            ret = res[0][1] if len(res) == 1 else None
+            want = [('okm', tuple(('o', j) for j in range(64)), C.FQ), ('okm', tuple(('o', j) for j in range(64, 128)), C.FQ)]
+            if not (isinstance(ret, Agg) and ret.items == want):
+                bad.append('returns %s' % _short(ret))
+        except (exp.NotDerivable, exp.Budget) as e:
+            bad.append('not derivable: %s' % e)
+        rep.check(not bad, 'BYTES', 'Fq2:from_ro', 'Fq2 = (from_okm(okm[..64]), from_okm(okm[64..])): real part first', '; '.join(bad), fx.fn(p2)['span'], construct=p2)
+    else:
+        rep.fail('BYTES', 'Fq2:from_ro', 'FromRO for Fq2 not found')
+
+
+def _short(v):
+    s_ = repr(v)
+    return s_ if len(s_) < 200 else s_[:200] + '...'
+
+
 def rules(fx, rep):
     rule_xmd_semantic(fx, rep)
     rule_xof_semantic(fx, rep)
-    rule_h2f(fx, rep)
-    rule_from_okm(fx, rep)
-    rule_fq2(fx, rep)
+    rule_h2f_semantic(fx, rep)
+    C.check_okm_consts(fx, rep)
+    rule_from_okm_semantic(fx, rep)
 
 
 def main(tier, t0):
